@@ -16,6 +16,12 @@ const maxInjectorReturns = 2
 // Transformer converts wire patterns to kessoku patterns.
 type Transformer struct {
 	tc *TypeConverter
+	// boundProviders maps an implementation type (as spelled by types.Type.String)
+	// to its provider function in the set currently being transformed.
+	boundProviders map[string]*types.Func
+	// inheritedBoundTypes are the implementation types bound by the enclosing
+	// element lists while an inline nested set is transformed.
+	inheritedBoundTypes map[string]bool
 }
 
 // NewTransformer creates a new Transformer instance.
